@@ -172,6 +172,11 @@ def run_unit(unit):
                     prefixes = ex.run(depth=depth)
                     res["states"] += len(ex.states)
                     res["transitions"] += ex.transitions
+                    # an earlier control query on the same diagram is a prior state too (it expands towards another target
+                    # and may leave derived data behind)
+                    for t in targets_of(net, "nodes"):
+                        for strat in ("internal",):
+                            prefixes.append((("control", key(t), strat, None, (), True),))
                 else:
                     prefixes = [()]
                 vio = []
